@@ -32,7 +32,7 @@ TRUSTED_BASE = [
     "Lean 4.33.0 kernel; axioms of every audited theorem are a subset of {propext, Classical.choice, Quot.sound}; "
     "no sorry/admit/native_decide/bv_decide/implemented_by/unsafe/own axioms (source grep + #print axioms each run)",
     "the statement of each theorem in lean/ZepidVerif/Props (reviewed against properties.jsonl)",
-    "the translator harness/py2lean.py (its output is executed against the Python it was generated from, gate K) "
+    "the translators harness/py2lean.py, harness/py2lean_lists.py and the static effect analysis harness/effects.py (their output is executed against the Python it was generated from, gate K; what effects.py declares rather than derives is listed in Gen/Tables.lean) "
     "and the correspondence harness incl. canonicalisation and tolerances",
     "assumed behaviour of external libraries (statsmodels GLM/GEE score equations, scipy norm.ppf/nnls/solve, "
     "sklearn KFold, pandas sample, numpy RNG), measured on every explored case (gate H), not proved",
